@@ -178,6 +178,17 @@ def RtoK (χ : Vec3 → K) (iRvec : List Vec3) (XR : Vec3 → K) : K :=
 def RtoKvals (χ : Vec3 → K) (vals : List (Vec3 × K)) : K :=
   sumK (vals.map fun p => χ p.1 * p.2)
 
+/-! ### remap_XX_R / do_ws_dist : the replica selection applied to an EXISTING real-space matrix -/
+
+/-- `XX_R_tmp[iR % mp_grid] += XX_R[i]` : the old entries `(R_old, X(R_old))` folded onto the mesh box -/
+def foldOnMesh (mp : Mesh) (entries : List (Vec3 × K)) (c : Vec3) : K :=
+  sumK ((entries.filter fun e => vmod e.1 mp = c).map (·.2))
+
+/-- `remap_XX_R` for one matrix element: fold the old matrix onto the mesh, then `remap_XX_from_grid_to_list_R`
+    (pick `R mod mp`, times the replica weight of the pair) -/
+def remapXXR (mp : Mesh) (w : Vec3 → K) (entries : List (Vec3 × K)) (R : Vec3) : K :=
+  w R * foldOnMesh mp entries (vmod R mp)
+
 /-- explicit forward DFT on the mesh box (what `fftn` computes), `χinv s c = e^{-2πi s·c/mp}` -/
 def dftBox (χinv : Vec3 → Vec3 → K) (mp : Mesh) (A : Vec3 → K) (c : Vec3) : K :=
   sumK ((gridPoints mp).map fun s => χinv s c * A s)
@@ -343,6 +354,26 @@ def handle : List String → String
           showListWith showGRat ";" (vals.map (·.2)) ++ " | "
             ++ showListWith showGRat ";" (sl.map fun s => RtoKvals (gchar false m s) vals)) "#"
         ((allPairs c.length).zip xss)
+    | _, _, _, _, _, _ => "bad-op"
+  -- System_R.do_ws_dist for the matrix elements (a,b) given: per pair (separated by '#') "a,b:re,im;re,im;..." = X_ab(R_old)
+  --   output per pair: new X_ab(R) over the sorted new iRvec (before exclude_zeros)
+  | ["wsdist", g, mp, tol, cs, rold, xs] =>
+    let parsePair := fun (t : String) =>
+      match t.splitOn ":" with
+      | [ab, x] => match parseNats? ab, parseGRats? x with
+        | some [a, b], some X => some ((a, b), X)
+        | _, _ => none
+      | _ => none
+    match (parseRats? g).bind toGram?, (parseNats? mp).bind toMesh?, parseRat? tol, (parseRatss? cs).bind (·.mapM toQVec3?),
+        (parseIntss? rold).bind (·.mapM toVec3?), (xs.splitOn "#").mapM parsePair with
+    | some G, some m, some t, some c, some Rold, some pairs =>
+      let nd := numDigits t
+      let sels := selList 3 G m t c
+      let iR := sortVecs (iRvecFrom sels)
+      showListWith showVec3 ";" iR ++ " | " ++
+      showListWith (fun (p : (Nat × Nat) × List GRat) =>
+          let sel := selFrom sels (shiftIndex nd c p.1.1 p.1.2)
+          showListWith showGRat ";" (iR.map (remapXXR m (weightOf sel) (Rold.zip p.2)))) "#" pairs
     | _, _, _, _, _, _ => "bad-op"
   -- exclude_zeros(tolerance): blocks "R1,R2,R3:re,im;re,im;..." separated by '#'  ->  kept R vectors
   | ["exclz", tol, bl] =>
